@@ -27,6 +27,16 @@
        sections of sections: writer 0 = NewSectionWriter(memfile, off_0, n_0), writer i = NewSectionWriter(writer i-1,
        off_i, n_i) (n = -1: AtToWriter); every call is addressed to a level.
        observation: [[per call: return values, (offset, bytes) the FILE received ...], file content afterwards]
+    op iohelper.BigWrite       args [off, n, [bcall, ...], F, e]
+       bcall ::= [0,[start,count]] Write | [1,[start,count],o] WriteAt | [2,o,whence] Seek | [3] Size, the buffer being
+       count bytes (start + i) mod 251; the underlying writer accepts bytes below absolute offset F (F = -1: everything)
+       and returns error class e for a call that reaches F.
+       observation: per call [[return values...], [[offset, length, checksum] of what the writer ACCEPTED, contiguous
+       pieces merged]]
+    op iohelper.Concurrent     args [off, n, pos0, pA, oA, callB]
+       NewSectionWriter(mock, off, n), Seek(pos0, SeekStart); caller A: WriteAt(pA, oA); caller B's call is made while
+       A is inside the underlying writer (or after A returned, when A never reaches it).
+       observation: [[A's return values, A's underlying calls], [B's ..., B's ...]]
     op pbcmpl.File             args [init, kind, [[off, [hasver, ver, payload]], ...]]
        for every placement in turn pbcmpl.Marshal(iohelper.AtToWriter(memfile, off), msg); then for every
        placement pbcmpl.Unmarshal(iohelper.AtToReader(memfile, off), blank message)  (kind: body codec of C06)
@@ -39,7 +49,7 @@ From Coq Require Import ZArith List Bool String.
 From Low Require Import Lib.MachInt Lib.BitSeq Lib.Val Model.SectionWriter Spec.SectionWriterSpec
   Model.MemFile Model.SectionReader Spec.SectionReaderSpec Model.SectionPair Spec.SectionPairSpec
   Model.Pbcmpl Spec.PbcmplSpec Model.PbcmplFile Spec.PbcmplFileSpec Run.PbcmplOps
-  Model.SectionNest Spec.SectionNestSpec.
+  Model.SectionNest Spec.SectionNestSpec Model.SectionBig Spec.SectionBigSpec.
 Import ListNotations.
 Open Scope string_scope.
 Open Scope Z_scope.
@@ -184,6 +194,22 @@ Definition dec_lcall (v : val) : option (nat * call) :=
 
 Definition to_lacall (lc : nat * call) : nat * acall := (fst lc, to_acall (snd lc)).
 
+Definition dec_bcall (v : val) : option call :=
+  match v with
+  | VL [VZ 0; VL [VZ st; VZ cnt]] =>
+      if (0 <=? st) && (0 <=? cnt) && (cnt <=? 2^22) then Some (CWrite (expand_buf st cnt)) else None
+  | VL [VZ 1; VL [VZ st; VZ cnt]; VZ o] =>
+      if (0 <=? st) && (0 <=? cnt) && (cnt <=? 2^22) && is_i64 o then Some (CWriteAt (expand_buf st cnt) o) else None
+  | VL [VZ 2; VZ o; VZ wh] => if is_i64 o && (- 2^31 <? wh) && (wh <? 2^31) then Some (CSeek o wh) else None
+  | VL [VZ 3] => Some CSize
+  | _ => None
+  end.
+
+Definition enc_segs (l : list (Z * Z * Z)) : val :=
+  VL (map (fun t => VL [VZ (fst (fst t)); VZ (snd (fst t)); VZ (snd t)]) l).
+Definition enc_out_c (r : out) : val := VL [vzs (rets r); enc_segs (accepted_segs (rets r) (ucalls r))].
+Definition enc_aout_c (r : aout) : val := VL [vzs (fst r); enc_segs (accepted_segs (fst r) (snd r))].
+
 Definition to_wacall (wc : wcall) : Z * acall := (fst wc, to_acall (snd wc)).
 
 Definition ops_C18 : list opdef := [
@@ -303,6 +329,38 @@ Definition ops_C18 : list opdef := [
                let aouts := spec_nested ws wsc (map to_lacall lcs) in
                VL [VL (map enc_aout aouts); vzs (spec_file_after init aouts)]
            | _, _, _, _ => VBad end
+       | _ => VBad end) |};
+  {| op_name := "iohelper.BigWrite";
+     op_run := fun a => match a with
+       | [VZ o; VZ n; VL cs; VZ F; VZ e] =>
+           match opt_all (map dec_bcall cs) with
+           | Some cs =>
+               if section_in_domain o n && (-1 <=? F) && (0 <=? e) && (e <=? 2)
+               then VL (map enc_out_c (run_pf F e (NewSectionWriter o n) cs)) else VBad
+           | None => VBad end
+       | _ => VBad end;
+     op_spec := fun_spec (fun a => match a with
+       | [VZ o; VZ n; VL cs; VZ F; VZ e] =>
+           match opt_all (map dec_bcall cs) with
+           | Some cs => VL (map enc_aout_c (arun_pf o n F e 0 (map to_acall cs)))
+           | None => VBad end
+       | _ => VBad end) |};
+  {| op_name := "iohelper.Concurrent";
+     op_run := fun a => match a with
+       | [VZ o; VZ n; VZ pos0; pA; VZ oA; cB] =>
+           match as_zs pA, dec_call cB with
+           | Some pA, Some cB =>
+               if section_in_domain o n && (0 <=? pos0) && (o + pos0 <=? 2^63 - 1) && is_bytes pA && is_i64 oA &&
+                  call_in_domain cB
+               then let '(rA, rB) := concurrent o n pos0 pA oA cB in VL [enc_out rA; enc_out rB] else VBad
+           | _, _ => VBad end
+       | _ => VBad end;
+     op_spec := fun_spec (fun a => match a with
+       | [VZ o; VZ n; VZ pos0; pA; VZ oA; cB] =>
+           match as_zs pA, dec_call cB with
+           | Some pA, Some cB =>
+               let '(rA, rB) := aconcurrent o n pos0 pA oA (to_acall cB) in VL [enc_aout rA; enc_aout rB]
+           | _, _ => VBad end
        | _ => VBad end) |};
   {| op_name := "pbcmpl.File";
      op_run := fun a => match a with
